@@ -167,11 +167,12 @@ func localViewFromBase(base *modfile.File) *modfile.File {
 		deps[mpath] = &d
 	}
 	return &modfile.File{
-		Module:   base.Module,
-		Language: base.Language,
-		Source:   base.Source,
-		Custom:   base.Custom,
-		Deps:     deps,
+		Module:      base.Module,
+		Language:    base.Language,
+		Source:      base.Source,
+		Description: base.Description,
+		Custom:      base.Custom,
+		Deps:        deps,
 	}
 }
 
